@@ -311,7 +311,7 @@ func equalStrings(a, b []string) bool {
 func init() {
 	register(&mon.CheckSpec{
 		ID: "C05", Level: "exploration",
-		Rule: "cases = (a) the 222 real records under /repo/**/testdata mutated by 1-4 seeded operators (byte flip, truncation, token delete/duplicate/swap, splice of ~120 hostile fragments, saddr fields of every length 0-60 x 8 families, hostile values, random bytes, 64 KiB fields), (b) pure random byte strings, (c) every mutated body also evaluated through Parse under each record type that selects its own enrichment path plus random types; thorough adds a sweep of ALL 65536 record types over a body subset. Each returned message has Data/Tags/ToMapStr called twice. Before the fuzz loop: all 338 ordered pairs / triples of 13 records with hex-decoded values (A decoded and copied with cloned strings, B decoded, A asked again), and sixteen goroutines decoding 48 000 / 3.2 M independent records with goroutine-private architecture / syscall / errno / address values (compared with a sequential pass); inside the loop every worker asks its previous message again after the next one was decoded. distinct_nontrivial = distinct (type, input text) pairs for which the parser returned a message (so the enrichment code ran).",
+		Rule: "cases = (a) the 222 real records under /repo/**/testdata mutated by 1-4 seeded operators (byte flip, truncation, token delete/duplicate/swap, splice of ~120 hostile fragments, saddr fields of every length 0-60 x 8 families, hostile values, random bytes, 64 KiB fields), (b) pure random byte strings, (c) every mutated body also evaluated through Parse under each record type that selects its own enrichment path plus random types; thorough adds a sweep of ALL 65536 record types over a body subset. Each returned message has Data/Tags/ToMapStr called twice. Before the fuzz loop: all 338 ordered pairs / triples of 13 records with hex-decoded values (A decoded and copied with cloned strings, B decoded, A asked again), and sixteen goroutines decoding 48 000 / 3.2 M independent records with goroutine-private architecture / syscall / errno / address values (compared with a sequential pass); inside the loop every worker asks its previous message again after the next one was decoded. Also enumerated: every prefix of 40 real records (as a log line and as a body) and headers whose numbers have 0-40 digits. distinct_nontrivial = distinct (type, input text) pairs for which the parser returned a message (so the enrichment code ran).",
 		Assumptions: []string{
 			"hang monitor: a call still running after 30 s (inputs <= 64 KiB; normal cost microseconds to milliseconds) is a hang; the monitor ends the phase when it fires",
 			"a panic is recovered per call and attributed to its input; fatal runtime errors are attributed through the in-flight slots",
@@ -349,6 +349,26 @@ func init() {
 			}
 			c05Pairs(c)
 			c05ConcurrentIndependent(c)
+			// enumerated: every prefix of 40 real records (a line cut anywhere: in the header, right after the closing
+			// parenthesis, in the middle of a value), and headers whose numbers have 0-40 digits
+			for i := 0; i < 40 && i < len(corpus); i++ {
+				l := corpus[(i*7)%len(corpus)]
+				for cut := 0; cut <= len(l) && cut < 400; cut++ {
+					eval(0, &c05Case{Line: true, Text: l[:cut]})
+					if j := strings.Index(l[:cut], "msg="); j >= 0 {
+						eval(0, &c05Case{Type: c05Types[cut%len(c05Types)], Text: l[j+4 : cut]})
+					}
+					c.Add("truncated_real_records", 1)
+				}
+			}
+			for nd := 0; nd <= 40; nd++ {
+				d := strings.Repeat("0", nd/2) + strings.Repeat("7", nd-nd/2)
+				for _, hdr := range []string{"audit(1490137971." + d + ":50406): a=1", "audit(" + d + ".011:50406): a=1", "audit(1490137971.011:" + d + "): a=1", "audit(1490137971." + strings.Repeat("0", nd) + "7:5): a=1", "audit(1490137971." + d + ":50406)"} {
+					eval(0, &c05Case{Line: true, Text: "type=SYSCALL msg=" + hdr})
+					eval(0, &c05Case{Type: 1300, Text: hdr})
+					c.Add("headers_with_long_numbers", 1)
+				}
+			}
 			c.ForEach(n, func(w, i int) {
 				r := c.Rand(1, uint64(i))
 				var line string
